@@ -64,7 +64,7 @@ def _replay(name, law):
             "arrays": "X = [v[k] for k in sorted(v) if k.startswith('x') and k[1:].isdigit()]; A = np.array(X); r = Hd.hedge(A)\n"
                       "M = [[v[k] for k in sorted(v) if k.startswith('m%d' % i)] for i in range(2)]; B = np.array(M); r2 = Hd.hedge(B)\n"
                       "bad = not (same(r, [f(t) for t in X], tol) and same(r2, [[f(t) for t in row] for row in M], tol) and same(A, X) and same(B, M))",
-            "pyfloat": "bad = not same(float(Hd.hedge(float(x))), float(Hd.hedge(np.array(x))), 0.0)",
+            "pyfloat": "bad = not (same(float(Hd.hedge(float(x))), float(Hd.hedge(np.float64(x))), 0.0) and same(float(Hd.hedge(np.array(x))), float(Hd.hedge(np.float64(x))), 0.0))",
             "singletons": "bad = False\n"
                           "for A in (np.array([x]), np.array([[x]]), np.array([[x], [x2]]), np.array([[x, x2]]), np.array([[[x]]]), np.array([[x, x, x2], [x2, x, x2]]).T, np.array([x, x2, x2])[::-1]):\n"
                           "    r = Hd.hedge(A); bad = bad or np.shape(r) != A.shape or not same(r, np.vectorize(f)(A), tol)",
@@ -115,7 +115,8 @@ def _ob(name, law, tier):
                 return r2, [_hedge(fl, name).hedge(x2), _hedge(fl, name).hedge(x)], z2      # expected values from fresh hedge objects
             if law == "pyfloat":
                 S.pyfloats = True
-                return Hd.hedge(core.PyRFloat.of(x)), Hd.hedge(x)      # a plain Python float in, the value a NumPy number gives
+                # a plain Python float, a NumPy scalar and a 0-d array (what np.where-based code returns for a scalar) give one value
+                return Hd.hedge(core.PyRFloat.of(x)), Hd.hedge(x), Hd.hedge(core.sym0d(x))
             if law == "singletons":
                 # arrays with one element or with axes of length one keep their shape: (1,), (1,1), (2,1), (1,2), (1,1,1)
                 shapes = ([x], [[x]], [[x], [x2]], [[x, x2]], [[[x]]])
@@ -162,7 +163,7 @@ def _ob(name, law, tier):
                 r2, e2, z2 = r
                 ob.prove(pre, p, z3.And(all_same(r2, e2), all_same(z2, [e2[0]])), f"{name}/fresh-results", ins, rp)
             elif law == "pyfloat":
-                ob.prove(pre, p, same(tf(r[0]), tf(r[1])), f"{name}/python-float", ins, rp)
+                ob.prove(pre, p, z3.And(same(tf(r[0]), tf(r[1])), same(tf(r[2]), tf(r[1]))), f"{name}/python-float+0d", ins, rp)
             elif law == "singletons":
                 from symfl.core import kind_of
                 res, fx, fx2 = r
